@@ -33,6 +33,8 @@ def streams():
         "data3": [d(1, 3)],
         "lt_data_lt": [lt(1), d(2, 2), lt(3)],
         "data_big": [d(1, 300)],
+        # a long run of requests back to back: every one needs an answer while the next ones are already waiting to be dispatched
+        "lt_burst": [lt(i) for i in range(1, 41)],
     }
 
 
@@ -419,6 +421,8 @@ def run(ctx: Ctx):
         offs = list(range(0, total + 1))
         if name == "data_big":
             offs = [0, 1, 3, 4, 5, 13, 14, 15, 100, total - 1, total]
+        if name == "lt_burst":
+            offs = [14 * 17, 14 * 18 + 3, total - 5, total]
         for cut in offs:
             for sel in (False, True):
                 for fault in ("peerclose", "disable", "reconnect"):
@@ -427,7 +431,7 @@ def run(ctx: Ctx):
                         items.append({"id": tid, "stream": name, "cut": cut, "sel": sel, "fault": fault, "chunk": chunk})
     # complete requests, the peer closing right behind the last byte, then reconnect + select + a data message
     for name, frames in streams().items():
-        if name == "data_big":
+        if name in ("data_big", "lt_burst"):
             continue
         bounds, acc = [], 0
         for fb in frames:
